@@ -449,7 +449,10 @@ def run_late(cfg, acc):
             last_word = edzed.Event(rpt, fresh('ev'))
         else:
             last_word = edzed.Event(probe, 'ev', repeat=INTERVAL, count=count)
-            rpt = next(iter(sim.circuit.getblocks(edzed.Repeat)))
+            rpt = next(iter(sim.circuit.getblocks(edzed.Repeat)), None)
+            if rpt is None:
+                return [('implicit-repeat-block-missing',
+                         f"Event(..., repeat={INTERVAL}, count={count}) created no Repeat block")]
         holder['r'] = rpt
 
         def say(blk):
